@@ -255,10 +255,15 @@ example : load exW ⟨.all, true⟩ 4 (.model "P") dP2 = .err (LErr.agg [
     sweepAll, Sweep.finish, bindO, loadIter, strictExcluded, Val.isMapping, Val.isStr,
     Val.iterElems, idxItems, LErr.pushO]
 
-example : Faults exW true 4 (.model "P") dP2 =
+example : Faults exW true 3 (.model "P") dP2 =
     [([], "NoRequiredFieldsLoadError"), ([.key (.str "tags"), .idx 0], "TypeLoadError")] := by
-  simp [Faults, exW, dP2, Val.lookup, Val.pyEq, Val.isMapping, Val.isStr, Val.iterElems, trailPre,
-    LErr.leaf, LErr.cls]
+  have h1 : Val.lookup (.str "x") [(Val.str "tags", Val.list [.int 1])] = none := by
+    simp [Val.lookup, Val.pyEq]
+  have h2 : Val.lookup (.str "tags") [(Val.str "tags", Val.list [.int 1])] = some (.list [.int 1]) := by
+    simp [Val.lookup, Val.pyEq]
+  show Faults exW true (2 + 1) (.model "P") dP2 = _
+  simp only [Faults, exW, dP2, beq_self_eq_true, ↓reduceIte, List.any_cons, h1, h2, List.flatMap_cons]
+  rfl
 
 /-- the tuple loader's arity errors show `tuple(data)`: the one looseness of `trail_exact` -/
 example : load exW ⟨.all, true⟩ 2 (.tuple [.scalar "int", .scalar "int"]) (.list [.int 1]) =
